@@ -400,15 +400,37 @@ def _kron_conv(a, b, G):
     return [(P >> (i * bits)) & mask for i in range(G)]
 
 
+def _kron_full(a, b):
+    """exact FULL convolution (length len(a)+len(b)-1) of non-negative integer lists"""
+    n = len(a) + len(b) - 1
+    bits = max(max(a).bit_length(), 1) + max(max(b).bit_length(), 1) + n.bit_length() + 2
+    A = sum(v << (i * bits) for i, v in enumerate(a))
+    Bv = sum(v << (i * bits) for i, v in enumerate(b))
+    P = A * Bv
+    mask = (1 << bits) - 1
+    return [(P >> (i * bits)) & mask for i in range(n)]
+
+
+FFT_NOISE = 5e-15  # assumed bound on the absolute error of one fftconvolve entry, in units of ||a||_2 ||b||_2
+EXP_LOG = 1e-13  # relative error of one exp/log round trip of a log-domain value (|log| up to a few hundred)
+
+
 def fft_stream(ctx):
+    """G >= 1000 switches _convolve_two_children to scipy's fftconvolve.  Oracle: the same recursion in exact integer
+    arithmetic (Kronecker substitution).  The FFT path cannot be exact below its noise floor, so the check carries a
+    forward error bound: every FFT convolution entry is allowed an absolute error FFT_NOISE * ||a||_2 * ||b||_2 (about
+    1e-15 of the peak of the row fftconvolve returns, before it is truncated to the grid), propagated exactly through
+    the later convolutions, running sums and products.  An entry is *inside the window* when that bound is below 1e-7
+    of the exact value - this contains every entry above 1e-6 of the peak of the (untruncated) convolution row - and
+    there the reported value must agree to 1e-7; every entry must be finite and within the bound."""
     from phyclone.tree import Tree
 
     rng = ctx.rng
     bits = 30
     worst = 0.0
-    n_entries = 0
+    n_in = n_all = n_literal_outside = 0
     for G in (1000, 1024):
-        for kind in ("random", "peaked"):
+        for kind in ("random", "peaked", "peaked_high"):
             for nkids in (2, 3):
                 for under_clone in (False, True):
                     npts = nkids + (1 if under_clone else 0)
@@ -417,52 +439,92 @@ def fft_stream(ctx):
                         if kind == "random":
                             ints.append([rng.randint(1, 16) << (bits - 4) for _ in range(G)])
                         else:
-                            c = rng.uniform(0.05, 0.6) * G
+                            lo, hi = (0.05, 0.45) if kind == "peaked" else (0.55, 0.95)
+                            c = rng.uniform(lo, hi) * G
                             w = rng.uniform(0.01, 0.08) * G
-                            ints.append([max(1, int(round((1 << bits) * math.exp(-((i - c) / w) ** 2)))) for i in range(G)])
+                            ints.append([max(1, int(round((1 << bits) * math.exp(-(((i - c) / w) ** 2))))) for i in range(G)])
                     values = [[[Fraction(v, 1 << bits) for v in row]] for row in ints]
                     data = make_data(values)
                     t = Tree((1, G))
-                    kids = [t.create_root_node(children=[], data=[data[i]]) for i in range(nkids)]
+                    kid_ids = [t.create_root_node(children=[], data=[data[i]]) for i in range(nkids)]
                     if under_clone:
-                        t.create_root_node(children=kids, data=[data[nkids]])
+                        par = t.create_root_node(children=kid_ids, data=[data[nkids]])
+                        sibs = t.get_children(par)
+                    else:
+                        sibs = t.roots
+                    # the exact value does not depend on the order of the children, the FFT noise does: follow the
+                    # order the tree hands to compute_log_D
+                    order = [t.get_data(c)[0].idx for c in sibs]
+                    ints = [ints[i] for i in order] + ints[nkids:]
                     obs = np.array(t.data_log_likelihood, dtype=float)[0]
-                    # exact: D = conv of the children's integer vectors (each child p = int / (2^bits G))
-                    acc = _kron_conv(ints[0], ints[1], G)
-                    for j in range(2, nkids):
-                        acc = _kron_conv(ints[j], acc, G)
-                    den = (G << bits) ** nkids
-                    run, S = 0, []
-                    for k in range(G):
-                        run += acc[k]
-                        S.append(run)
-                    if under_clone:
-                        Rn = [ints[nkids][x] * S[x] for x in range(G)]
-                        den *= G << bits
-                        run, S = 0, []
-                        for k in range(G):
-                            run += Rn[k]
-                            S.append(run)
-                    exact = [Fraction(v, den * G) for v in S]
-                    peak = max(exact)
                     key = "C02:Tree.data_log_likelihood:fft:kids=%d" % nkids
                     replay = {"grid": G, "kind": kind, "children": nkids, "under_clone": under_clone, "ints_over_2^30": ints}
                     ctx.case(key=("fft", G, kind, nkids, under_clone), nontrivial=True, sample={"fft": True, "G": G, "kind": kind, "children": nkids, "under_clone": under_clone})
                     ctx.count("fft_G=%d" % G)
+                    ctx.count("fft_kind=%s" % kind)
                     if not np.all(np.isfinite(obs)):
                         ctx.fail(key + ":nonfinite", "non-finite entry on the FFT path", replay)
                         continue
+                    # exact recursion on integers over a common denominator, with a float error bound alongside
+                    unit = G << bits  # every clone's p = int / unit
+                    a_int, a_den = ints[0], unit
+                    a_f = np.array([v / a_den for v in a_int])
+                    a_e = EXP_LOG * a_f
+                    literal_ok = np.ones(G, dtype=bool)
+                    for jk in range(1, nkids):
+                        b_int = ints[jk]
+                        b_f = np.array([v / unit for v in b_int])
+                        b_e = EXP_LOG * b_f
+                        full = _kron_full(a_int, b_int)
+                        out_int = full[:G]
+                        out_den = a_den * unit
+                        out_f = np.array([v / out_den for v in out_int])
+                        noise = FFT_NOISE * float(np.linalg.norm(a_f + a_e)) * float(np.linalg.norm(b_f + b_e))
+                        out_e = np.convolve(a_f, b_e)[:G] + np.convolve(a_e, b_f)[:G] + np.convolve(a_e, b_e)[:G] + noise + EXP_LOG * out_f
+                        fullpeak = max(full) / out_den
+                        literal_ok &= out_f * 1e6 >= fullpeak
+                        a_int, a_den, a_f, a_e = out_int, out_den, out_f, out_e
+                    S_int, run = [], 0
                     for k in range(G):
-                        if exact[k] * 10**6 >= peak:
-                            n_entries += 1
-                            e = rel_err(math.exp(obs[k]), exact[k])
+                        run += a_int[k]
+                        S_int.append(run)
+                    S_e = np.cumsum(a_e) * (1 + 1e-13)
+                    S_den = a_den
+                    if under_clone:
+                        pn = ints[nkids]
+                        R_int = [pn[x] * S_int[x] for x in range(G)]
+                        R_e = np.array([pn[x] / unit for x in range(G)]) * S_e * (1 + 1e-13) + EXP_LOG * np.array([R_int[x] / (S_den * unit) for x in range(G)])
+                        S_den = S_den * unit
+                        S_int, run = [], 0
+                        for k in range(G):
+                            run += R_int[k]
+                            S_int.append(run)
+                        S_e = np.cumsum(R_e) * (1 + 1e-13)
+                    exact = [Fraction(v, S_den * G) for v in S_int]
+                    ex_f = np.array([float(e) for e in exact])
+                    err = S_e / G + EXP_LOG * ex_f
+                    lin = np.exp(obs)
+                    for k in range(G):
+                        n_all += 1
+                        d = abs(lin[k] - ex_f[k])
+                        ctx.extra["fft_max_fraction_of_noise_bound"] = max(ctx.extra.get("fft_max_fraction_of_noise_bound", 0.0), float(d / (err[k] + 1e-9 * ex_f[k])))
+                        if d > err[k] + 1e-9 * ex_f[k]:
+                            ctx.fail(key, "entry %d: exp = %.12g, exact %.12g, difference %.3g exceeds the FFT noise bound %.3g" % (k, lin[k], ex_f[k], d, err[k]), replay)
+                            break
+                        if err[k] <= 1e-7 * ex_f[k]:
+                            n_in += 1
+                            e = d / ex_f[k]
                             worst = max(worst, e)
                             if e > 1e-7:
-                                ctx.fail(key, "entry %d: exp = %.12g, exact %.12g (rel %.3g) although above 1e-6 of the row peak" % (k, math.exp(obs[k]), float(exact[k]), e), replay)
+                                ctx.fail(key + ":window", "entry %d inside the window: exp = %.12g, exact %.12g (rel %.3g)" % (k, lin[k], ex_f[k], e), replay)
                                 break
+                        elif all(literal_ok[: k + 1]):
+                            n_literal_outside += 1
+    ctx.extra["fft_entries"] = n_all
+    ctx.extra["fft_entries_in_window"] = n_in
     ctx.extra["fft_worst_rel_error_in_window"] = worst
-    ctx.extra["fft_entries_in_window"] = n_entries
-    ctx.log("FFT stream: worst relative error inside the window %.3g over %d entries" % (worst, n_entries))
+    ctx.extra["fft_entries_above_1e-6_of_every_row_peak_but_outside_noise_window"] = n_literal_outside
+    ctx.log("FFT stream: %d entries, %d inside the window, worst relative error there %.3g; %d entries above 1e-6 of every untruncated row peak fall outside the noise window" % (n_all, n_in, worst, n_literal_outside))
 
 
 # ------------------------------------------------------------------ thorough: extreme dynamic range (direct path)
